@@ -23,7 +23,7 @@ def run(rep, tier):
     parts = xh.write_module("hC13_parts", H.parts_source())
     targets = []
     for v in H.VARIANTS:
-        targets += [f"{parts}.check_frames_{v}_p{j}" for j in range(H.NK)]
+        targets += [f"{parts}.check_frames_{v}_p{j}" for j in range(H.NK_EXT)]
         targets.append(f"{parts}.check_vars_{v}")
     twin = [f"{MOD}.twin_two_yields_then_error", f"{MOD}.check_ws_history"]
     MODM = "harness.C13_method"
